@@ -204,7 +204,9 @@ class SimRun:
             skip += [f"weak{i}" for i in o.get("skip_weak", [])]
             # (the parameter is typed Iterable[str]: a list, a tuple, a set or a one-pass iterator are all legal)
             form = o.get("skip_form", "list")
-            skip_arg = {"list": skip, "tuple": tuple(skip), "set": set(skip), "iter": iter(list(skip))}[form]
+            skip_arg = {"list": skip, "tuple": tuple(skip), "set": set(skip), "iter": iter(list(skip)),
+                        # a single name given as a plain string
+                        "str": skip[0] if len(skip) == 1 else skip}[form]
             m.simulate(jax.random.PRNGKey(o["seed"]), skip=skip_arg)
             ev["draws"] = list(self.draw_log)
             ev["order"] = [d["d"] for d in self.draw_log]
@@ -226,7 +228,7 @@ def gen_ops(rng, plan, nops):
         return {"ev": "simulate", "seed": rng.randint(0, 10**6),
                 "skip_weak": sorted(rng.sample(weak, rng.randint(0, len(weak)))) if weak and rng.random() < 0.5 else [],
                 "skip": sorted(rng.sample(dvals, k)) if rng.random() < 0.5 else [],
-                "skip_how": rng.choice(["var", "dist", "at"]), "skip_form": rng.choice(["list", "list", "tuple", "set", "iter"])}
+                "skip_how": rng.choice(["var", "dist", "at"]), "skip_form": rng.choice(["list", "list", "tuple", "set", "iter", "str", "str"])}
 
     nslots = 0
     while len(ops) < nops:
